@@ -390,6 +390,14 @@ def resolveAt (entryAt : Nat → Except Err Kind) (idx : Bytes → Option Nat) (
         | some b => app d (some (.ok b))
         | none => some (.error .key)
 
+/-- `PackData.get_object_at(off)` on the bytes of a pack: `assert offset >= header size`, then `unpack_object_at`
+at that offset — ANY offset, entry boundary or not (this is what an attacker-controlled index can point at). -/
+def entryAtOf (inflate : Inflate) (inp : Bytes) (off : Nat) : Except Err Kind :=
+  if off < Gen.Ingest.packHeaderLen then .error .format else
+  match parseEntry inflate off (inp.drop off) with
+  | .ok (e, _) => .ok e.kind
+  | .error e => .error e.toErr
+
 /-! ## logical ingest -/
 
 inductive Path where
